@@ -683,13 +683,17 @@ def oracle_long_history(sc, tr):
     return None
 
 
-def run_long_history(res, prop, wd, seed, rounds, per_round):
-    """the long history alone, in lockstep with the model (used by the thorough tier of C04 / C05, whose ledgers are
-    built from what the ticks report)"""
+def run_long_history(res, prop, wd, seed, rounds, per_round, lockstep=True):
+    """the long history alone (C04 / C05: their ledgers are built from what the ticks report). With lockstep (thorough
+    tier) the model runs the whole history and every response is compared; without (quick tier) only the direct reading
+    is applied to what the real code answered — a search for a failing input that costs a second, claims nothing when it
+    finds none, and is neither part of the proof nor of the correspondence."""
     sc = gen_long_client_scenario(random.Random(seed + 29), rounds=rounds, per_round=per_round)
     tr = run_harness("server", [sc], wd, tag="long")[0]
-    failing = eval_cases(wd, "client_long", IMPORTS_CLIENT, [g_ccase(sc, tr)], "ccase_ok", per_shard_min=1)
-    cov = dict(long_history_requests=len(tr["results"]), long_history_mismatching=len(failing))
+    failing = eval_cases(wd, "client_long", IMPORTS_CLIENT, [g_ccase(sc, tr)], "ccase_ok", per_shard_min=1) if lockstep else []
+    cov = dict(long_history_requests=len(tr["results"]), long_history_mismatching=len(failing) if lockstep else None,
+               long_history_mode="lockstep with the model + direct reading" if lockstep else
+               "direct reading only (failing-input search on the real code; not evidence that the property holds)")
     f = oracle_long_history(sc, tr)
     if f:
         res.violation(dict(kind="property-fails-on-implementation", component="uist-client", found_in="long history",
